@@ -758,17 +758,18 @@ class Scalars:
             return {ast.BitAnd: z3.And, ast.BitOr: z3.Or, ast.BitXor: z3.Xor}[type(op)](za, zb)
         za, zb = unify(a, b)
         isint = za.sort() == z3.IntSort()
+        rnd = (lambda t: t) if isint else self.fl_round
         if isinstance(op, ast.Add):
-            return za + zb
+            return rnd(za + zb)
         if isinstance(op, ast.Sub):
-            return za - zb
+            return rnd(za - zb)
         if isinstance(op, ast.Mult):
-            return za * zb
+            return rnd(za * zb)
         if isinstance(op, ast.Div):
             z = simp(zb == 0)
             if z is True or (z is not False and self.ctx.branch(zb == 0)):
                 raise PyRaise(builtin_exc('ZeroDivisionError'), 'division by zero')
-            return to_real(za) / to_real(zb)
+            return self.fl_round(to_real(za) / to_real(zb))
         if isinstance(op, ast.FloorDiv):
             z = simp(zb == 0)
             if z is True or (z is not False and self.ctx.branch(zb == 0)):
@@ -852,6 +853,9 @@ class Scalars:
             if isinstance(op, ast.NotIn):
                 r = (not r) if isinstance(r, bool) else z3.Not(r)
             return r
+        if isinstance(a, Opaque) and isinstance(b, Opaque) and a.name in ('datetime', 'timedelta'):
+            from . import models_time
+            return models_time.dt_compare(self.I, op, a, b)
         if not is_sym(a) and not is_sym(b):
             return self._concrete_compare(op, a, b)
         if a is None or b is None:
@@ -936,6 +940,18 @@ class Scalars:
             raise PyRaise(builtin_exc('TypeError'), str(e))
         raise Unsupported('compare op')
 
+    def fl_round(self, t):
+        """one IEEE rounding of the exact real t (model E); identity under model R"""
+        if self.I.opts.get('float_model') != 'E':
+            return t
+        t = to_real(t)
+        for f in fl_facts(t):
+            self.ctx.fact(f)
+        return FL(t)
+
+    def fl_div(self, a, b):
+        return self.fl_round(to_real(a) / to_real(b))
+
     def neg(self, v):
         if isinstance(v, Arr):
             return self.I.lib.arr_unop('neg', v)
@@ -951,3 +967,19 @@ class Scalars:
 
 
 POW = z3.Function('pow', z3.RealSort(), z3.RealSort(), z3.RealSort())
+FL = z3.Function('fl', z3.RealSort(), z3.RealSort())   # IEEE-754 binary64 round-to-nearest (model E)
+U53 = z3.RealVal(fractions.Fraction(1, 2 ** 53))
+
+
+def fl_facts(t):
+    """axioms of model E for one rounding fl(t) (finite, no overflow / underflow)"""
+    f = FL(t)
+    at = z3.If(t >= 0, t, -t)
+    facts = [z3.If(f - t >= 0, f - t, t - f) <= U53 * at,
+             z3.Implies(z3.And(z3.IsInt(t), at <= z3.RealVal(2 ** 53)), f == t),
+             z3.Implies(t >= 0, f >= 0), z3.Implies(t <= 0, f <= 0)]
+    # half-ulp bounds per binade (only the binades the contracts need)
+    for e in (33, 31, 11, 1, 0):
+        facts.append(z3.Implies(at < z3.RealVal(2 ** e), z3.If(f - t >= 0, f - t, t - f) <= z3.RealVal(fractions.Fraction(2 ** e, 2 ** 54))))
+    return facts
+
